@@ -455,6 +455,39 @@ BINARY = {
 SKIPPED_OPS_REASON = "not element-wise scalar functions (reductions are checked separately; structural / linear-algebra / constructor ops take array arguments only)"
 
 
+def _inherent_shift_underflow(eq, operands, r, want):
+    """True iff every wrong entry of r is a -inf that the documented algorithm itself produces: each operand shifted by ITS OWN
+    maximum over its reduced dims (clamped at the float minimum), the shifted exponentials multiplied and summed in linear
+    space.  A -inf at a position where that algorithm gives a finite value is NOT the known limitation."""
+    r = np.asarray(r, dtype=float)
+    want = np.asarray(want, dtype=float)
+    bad = ~np.isclose(r, want, rtol=1e-6, atol=1e-9, equal_nan=False) & ~((r == want))
+    if not np.all(np.isneginf(r[bad]) & np.isfinite(want[bad])):
+        return False
+    ins, out = eq.split("->")
+    ins = ins.split(",")
+    with np.errstate(all="ignore"):
+        total_shift = 0.0
+        exps = []
+        for dims, op_ in zip(ins, operands):
+            sh = np.asarray(op_, dtype=float)
+            for i, d in enumerate(dims):
+                if d not in out:
+                    sh = np.amax(sh, i, keepdims=True)
+            sh = np.clip(sh, np.finfo(float).min, None)
+            exps.append(np.exp(op_ - sh))
+            kept = [d for d in dims if d in out]
+            sh2 = sh.reshape([s_ for s_, d in zip(np.shape(op_), dims) if d in out])
+            # broadcast the shift to the output layout
+            idx = [kept.index(d) if d in kept else None for d in out]
+            sh3 = np.transpose(sh2, [i for i in idx if i is not None]) if sh2.ndim else sh2
+            shape = [np.shape(sh3)[[i for i in idx if i is not None].index(i)] if i is not None else 1 for i in idx]
+            total_shift = total_shift + np.reshape(sh3, shape)
+        model = np.log(np.einsum(eq, *exps)) + total_shift
+    model = np.broadcast_to(model, want.shape)
+    return bool(np.all(np.isneginf(model[bad])))
+
+
 def check_agree_unary(v, n):
     op = UNARY_CALL.get(n) or getattr(ops, n)
     ref, dom, grids = UNARY[n]
@@ -808,7 +841,7 @@ def check_einsum(v, seed, nrandom):
                     v.fail(
                         "einsum_exact_limit",
                         "%s.einsum(%r, %s) = %s, exact %s" % (modn, eq, [o.tolist() for o in operands], np.asarray(r).tolist(), np.asarray(want).tolist()),
-                        ["einsum", modn, "nan" if has_nan(r) else ("shift_underflow" if np.any(np.isneginf(np.asarray(r, dtype=float)) & np.isfinite(want)) else "value"), eq],
+                        ["einsum", modn, "nan" if has_nan(r) else ("shift_underflow" if _inherent_shift_underflow(eq, operands, r, want) else "value"), eq],
                     )
 
 
